@@ -2,7 +2,7 @@
     Statements only; proofs in Proofs/Builder_Proofs.v. *)
 From Coq Require Import ZArith QArith Qround Qabs List Lia.
 From SB Require Import Base.Prelude Base.Num Base.F32 Gen.Generated Model.Codec Model.Traj Model.Utils Model.Rth Model.Builder
-  Proofs.Builder_Proofs Proofs.Utils_Proofs Proofs.BuilderFast_Proofs.
+  Proofs.Builder_Proofs Proofs.Utils_Proofs Proofs.BuilderFast_Proofs Spec.TrajSpec Spec.BuilderSpec Proofs.BuilderSpec_Proofs.
 Import ListNotations.
 Local Open Scope Z_scope.
 
@@ -79,3 +79,23 @@ Print Assumptions conversion_example.
 Theorem conversion_closed_form : forall e start, rth_to_trajectory_fast e start = rth_to_trajectory e start.
 Proof. exact BuilderFast_Proofs.rth_fast_eq. Qed.
 Print Assumptions conversion_closed_form.
+
+(** ---- the generated trajectory, declaratively (Spec/BuilderSpec.v) ----
+    Whatever the conversion produces is the encoding of a well-formed abstract
+    trajectory made of straight-line segments only, whose end point is the
+    quantisation (per axis at most the requested coordinate and less than one
+    quantum - the scale of the generated trajectory - below it, up to the
+    binary32 rounding of the division) of the point the entry describes: the
+    start point raised by the neck, then the target keeping that altitude or
+    at the target altitude, or - for a landing entry - no horizontal leg.
+    With C01's position theorem on [encode_traj T] every position lies on a
+    polygon through quantised points; the quantisation of the intermediate
+    corner points and the timing of the phases are covered by [phases_durations]
+    and by the probes of the correspondence (the full "within one quantum at
+    every instant" is checked there on every run, not proved). *)
+Theorem conversion_refines_spec : forall e start bytes,
+  rth_to_trajectory e start = Ok bytes ->
+  exists T, bytes = encode_traj T /\ wf_straj T = true /\ Forall linear_seg (st_segs T) /\
+            close_to (st_scale T) (end_of T) (rth_final_target e start).
+Proof. exact BuilderSpec_Proofs.conversion_refines_spec. Qed.
+Print Assumptions conversion_refines_spec.
